@@ -130,15 +130,68 @@ func (r *WordRenderer) renderHeading(node *ast.Heading) (ast.WalkStatus, error) 
 	}
 
 	// 使用现有的API，确保兼容性
+	var para *document.Paragraph
 	if r.opts.GenerateTOC && level <= r.opts.TOCMaxLevel {
 		// 复用现有的AddHeadingWithBookmark方法
-		r.doc.AddHeadingWithBookmark(text, level, "")
+		para = r.doc.AddHeadingWithBookmark(text, level, "")
 	} else {
 		// 复用现有的AddHeadingParagraph方法
-		r.doc.AddHeadingParagraph(text, level)
+		para = r.doc.AddHeadingParagraph(text, level)
+	}
+
+	// 标题中的强调、代码等内联格式：用带格式的run替换纯文本run
+	if para != nil && len(para.Runs) > 0 && hasInlineMarkup(node) {
+		r.replaceRunWithInlines(node, para, len(para.Runs)-1)
 	}
 
 	return ast.WalkSkipChildren, nil
+}
+
+// hasInlineMarkup 判断节点的内联内容中是否包含纯文本以外的节点（强调、代码、链接等）
+func hasInlineMarkup(node ast.Node) bool {
+	for child := node.FirstChild(); child != nil; child = child.NextSibling() {
+		if _, ok := child.(*ast.Text); !ok {
+			return true
+		}
+	}
+	return false
+}
+
+// replaceRunWithInlines 用 node 的带格式内联内容替换段落中第 idx 个（纯文本）run，
+// 被替换run的字符格式（如标题样式的粗体、字号、颜色）作为新run的默认格式
+func (r *WordRenderer) replaceRunWithInlines(node ast.Node, para *document.Paragraph, idx int) {
+	tmpl := para.Runs[idx].Properties
+	tmp := &document.Paragraph{}
+	r.renderInlineContent(node, tmp)
+	for i := range tmp.Runs {
+		if tmp.Runs[i].Properties == nil {
+			tmp.Runs[i].Properties = &document.RunProperties{}
+		}
+		rp := tmp.Runs[i].Properties
+		if tmpl == nil {
+			continue
+		}
+		if rp.Bold == nil && tmpl.Bold != nil {
+			rp.Bold = &document.Bold{}
+		}
+		if rp.Italic == nil && tmpl.Italic != nil {
+			rp.Italic = &document.Italic{}
+		}
+		if rp.FontSize == nil && tmpl.FontSize != nil {
+			rp.FontSize = &document.FontSize{Val: tmpl.FontSize.Val}
+		}
+		if rp.Color == nil && tmpl.Color != nil {
+			rp.Color = &document.Color{Val: tmpl.Color.Val}
+		}
+		if rp.FontFamily == nil && tmpl.FontFamily != nil {
+			ff := *tmpl.FontFamily
+			rp.FontFamily = &ff
+		}
+	}
+	runs := append([]document.Run{}, para.Runs[:idx]...)
+	runs = append(runs, tmp.Runs...)
+	runs = append(runs, para.Runs[idx+1:]...)
+	para.Runs = runs
 }
 
 // renderParagraph 渲染段落
